@@ -81,7 +81,7 @@ Definition bv_ranked (r : registry) (s : settings) (rank : N -> nat) : Prop :=
   (forall id t c, resolve r id = Some t -> is_composite_or_variant (t_def t) = true ->
      path_transparent s (t_path t) = true -> In c (param_ids t) -> rank c <= rank id) /\
   (* fields not named [Box<..>] *)
-  (forall id t f, resolve r id = Some t -> In f (def_fields (t_def t)) -> is_boxed f = false ->
+  (forall id t f, resolve r id = Some t -> In f (def_fields (t_def t)) -> is_boxed_gen f = false ->
      rank (f_ty f) < rank id) /\
   (* the rank of a struct / enum entry is a function of its path *)
   (forall id1 t1 id2 t2, resolve r id1 = Some t1 -> resolve r id2 = Some t2 ->
